@@ -208,6 +208,33 @@ impl Check for C11 {
                 inputs.push(format!("11{}{}", l, u));
                 inputs.push(format!("{}{}{}{}", l, l, u, u));
                 inputs.push(format!("{}1{}1", l, u));
+                inputs.push(format!("{}{}11", l, l));
+                inputs.push(format!("11{}{}", u, u));
+                // a group recaptured in every iteration with a case-blind back-reference:
+                // explicit oracle (every pair of characters equal or case counterparts)
+                let doubled = [format!("{}{}", l, u), format!("{}{}11", l, u), format!("11{}{}", u, l), format!("{}{}{}1", l, u, l), format!("{}{}{}{}11", l, l, u, l), format!("1{}{}1", l, u), format!("bB{}{}", u, l), format!("{}{}Bb", l, l)];
+                for pat in [r"^(?:(.)\1)+$", r"^(?:(\w)\1)+$", r"^(?:([^-])\1-?)+$"] {
+                    for flags in ["", "i"] {
+                        let re = match common::compile(pat, flags, false) {
+                            Compiled::Ok(r) => r,
+                            _ => {
+                                out.inc("rejected_or_crash");
+                                continue;
+                            }
+                        };
+                        for inp in &doubled {
+                            let cs: Vec<char> = inp.chars().collect();
+                            let want = cs.len() % 2 == 0 && cs.chunks(2).all(|p| p[0] == p[1] || (flags == "i" && (swap_case(p[0]) == p[1] || swap_case(p[1]) == p[0])));
+                            out.inc("states");
+                            out.inc("validated");
+                            if let Out::Ok(got) = imp::is_match(&re, inp) {
+                                if got != want {
+                                    out.fail("C11", &Case::new(&scope_name, pat, flags).input(inp).api("is_match"), "DoubledRun", &want.to_string(), &got.to_string(), "every pair of characters equal, or case counterparts under i");
+                                }
+                            }
+                        }
+                    }
+                }
                 for text in &pats {
                     self.one(ctx, out, &scope_name, text, &inputs);
                 }
